@@ -385,6 +385,18 @@ func slotOrigins(p *Program, v ssa.Value, want string, depth int, seen map[ssa.V
 			case strings.HasPrefix(n, "fetch") || strings.HasPrefix(n, "deserialize"):
 				// bytes read back from the database
 			default:
+				// a private part that seals and hands the ciphertexts back: what it can return in that position
+				if g := call.Call.StaticCallee(); g != nil && len(g.Blocks) > 0 && fnPkgPath(g) == fnPkgPath(call.Parent()) && g.Object() != nil && !g.Object().Exported() && depth < 5 {
+					for _, gb := range g.Blocks {
+						if r, isR := gb.Instrs[len(gb.Instrs)-1].(*ssa.Return); isR && x.Index < len(r.Results) {
+							if isNilConst(r.Results[x.Index]) {
+								continue
+							}
+							bad = append(bad, slotOrigins(p, r.Results[x.Index], want, depth+1, seen)...)
+						}
+					}
+					continue
+				}
 				bad = append(bad, "result of "+n+" at "+p.Pos(call.Pos()))
 			}
 		case *ssa.Call:
@@ -553,6 +565,39 @@ func freshKeyClass(p *Program, k ssa.Value) string {
 				for _, o := range sl.Origins(a) {
 					for _, sv := range sealed {
 						if o == sv && i < len(callee.Params) {
+							ln := strings.ToLower(callee.Params[i].Name())
+							switch {
+							case strings.Contains(ln, "pub"):
+								return "pub"
+							case strings.Contains(ln, "script"):
+								return "script"
+							case strings.Contains(ln, "priv"):
+								return "priv"
+							}
+						}
+					}
+				}
+			}
+		}
+	}
+	// the sealed key travels to the writer inside a struct (blobs grouped and handed to a helper that persists them):
+	// the field it was stored into, where that field is handed to putCryptoKeys
+	for _, sv := range sealed {
+		for _, u := range usesOf(sv) {
+			st, ok := u.(*ssa.Store)
+			if !ok {
+				continue
+			}
+			fa, ok := st.Addr.(*ssa.FieldAddr)
+			if !ok {
+				continue
+			}
+			tn, fld := fieldAddrName(fa)
+			for _, g := range p.FuncsIn("waddrmgr") {
+				for _, call := range callsNamed(g, "putCryptoKeys") {
+					callee := call.Call.StaticCallee()
+					for i, a := range call.Call.Args {
+						if tn2, f2, _, okf := fieldOf(stripConv(a)); okf && tn2 == tn && f2 == fld && callee != nil && i < len(callee.Params) {
 							ln := strings.ToLower(callee.Params[i].Name())
 							switch {
 							case strings.Contains(ln, "pub"):
